@@ -1159,6 +1159,11 @@ impl State {
                 Connected => {
                     self.connected = true;
                     shared.connected.notify_waiters();
+                    // The handshake may have raised the stream limits remembered from a previous
+                    // session, for which no `Available` event is generated: let streams opened
+                    // during 0-RTT retry.
+                    shared.stream_budget_available[Dir::Uni as usize].notify_waiters();
+                    shared.stream_budget_available[Dir::Bi as usize].notify_waiters();
                     if self.inner.side().is_client() && !self.inner.accepted_0rtt() {
                         // Wake up rejected 0-RTT streams so they can fail immediately with
                         // `ZeroRttRejected` errors.
